@@ -376,6 +376,88 @@ func (e *c10env) pair(cc c10col, a, b oval, nilA bool) []finding {
 	return fs
 }
 
+// together checks an update operation that names two columns: cc goes from a to b while the
+// companion column keeps its value x (named in the row all the same). The operation's own
+// new model must hold (b, x), the modify row must describe cc alone, and applying it to
+// (a, x) must give (b, x).
+func (e *c10env) together(cc c10col, a, b oval, comp c10col, x oval) []finding {
+	c, k := cc.col, comp.col
+	var fs []finding
+	kind := c.Desc() + "+unchanged:" + k.Desc()
+	db, dx := b.datum(c.IsMap()), x.datum(k.IsMap())
+	equal := a.datum(c.IsMap()).Equal(db)
+	build := func() model.Model {
+		mdl := reflect.New(e.m.Types["T"])
+		mdl.Elem().FieldByName("UUID").SetString(c10UUID)
+		mdl.Elem().FieldByName(dyn.FieldName(c.Name)).Set(reflect.ValueOf(a.native(c, false)))
+		mdl.Elem().FieldByName(dyn.FieldName(k.Name)).Set(reflect.ValueOf(x.native(k, false)))
+		return mdl.Interface()
+	}
+	mA := build()
+	snapA := deepCopyModel(mA)
+	op := ovsdb.Operation{Op: "update", Table: "T", Row: ovsdb.Row{c.Name: dyn.ToOvs(c, db), k.Name: dyn.ToOvs(k, dx)}, Where: []ovsdb.Condition{}}
+	ob, _ := json.Marshal(op)
+	var wop ovsdb.Operation
+	if err := json.Unmarshal(ob, &wop); err != nil {
+		return []finding{{"C10/harness/op-decode", err.Error()}}
+	}
+	mu := updates.ModelUpdates{}
+	if err := mu.AddOperation(e.m.DB, "T", c10UUID, mA, &wop); err != nil {
+		return []finding{{"C10/two-columns/error/" + kind, fmt.Sprintf("AddOperation(update %s -> %s, %s unchanged) failed: %v", a, b, x, err)}}
+	}
+	if !reflect.DeepEqual(mA, snapA) {
+		fs = append(fs, finding{"C10/two-columns/alters-source-model/" + kind, fmt.Sprintf("update %s -> %s with unchanged %s altered the model it was computed from", a, b, x)})
+	}
+	var modify *ovsdb.Row
+	n := 0
+	_ = mu.ForEachRowUpdate("T", func(u string, ru ovsdb.RowUpdate2) error {
+		n++
+		modify = ru.Modify
+		return nil
+	})
+	if equal {
+		if n != 0 {
+			fs = append(fs, finding{"C10/two-columns/nonempty-for-equal/" + kind, fmt.Sprintf("an update that changes nothing yields an update: %v", modify)})
+		}
+		return fs
+	}
+	if n != 1 || modify == nil {
+		return append(fs, finding{"C10/two-columns/empty-for-different/" + kind, fmt.Sprintf("difference of %s and %s is empty (updates=%d)", a, b, n)})
+	}
+	if _, ok := (*modify)[k.Name]; ok || len(*modify) != 1 {
+		fs = append(fs, finding{"C10/two-columns/extra-columns/" + kind, fmt.Sprintf("modify row of a one-column change has columns %v", *modify)})
+	}
+	check := func(what string, res model.Model) {
+		if res == nil {
+			fs = append(fs, finding{"C10/two-columns/" + what + "/no-model/" + kind, "no resulting model"})
+			return
+		}
+		for _, q := range []struct {
+			col  *tspace.Col
+			want ref.Datum
+		}{{c, db}, {k, dx}} {
+			got, err := dyn.FromNative(q.col, e.m.Field("T", res, q.col.Name))
+			if err != nil {
+				fs = append(fs, finding{"C10/two-columns/" + what + "/invalid-result/" + kind, fmt.Sprintf("column %s: %v", q.col.Name, err)})
+			} else if !got.Equal(q.want) {
+				fs = append(fs, finding{"C10/two-columns/" + what + "/law/" + kind, fmt.Sprintf("update %s: %s -> %s, %s: %s unchanged: column %s of the result is %s, expected %s", c.Name, a, b, k.Name, x, q.col.Name, got, q.want)})
+			}
+		}
+	}
+	check("new-model-of-the-operation", mu.GetModel("T", c10UUID))
+	mb, _ := json.Marshal(ovsdb.RowUpdate2{Modify: modify})
+	var ru2 ovsdb.RowUpdate2
+	if err := json.Unmarshal(mb, &ru2); err != nil {
+		return append(fs, finding{"C10/two-columns/undecodable/" + kind, fmt.Sprintf("modify row %s does not decode: %v", mb, err)})
+	}
+	mu2 := updates.ModelUpdates{}
+	if err := mu2.AddRowUpdate2(e.m.DB, "T", c10UUID, build(), ru2); err != nil {
+		return append(fs, finding{"C10/two-columns/apply-error/" + kind, fmt.Sprintf("applying modify %s failed: %v", mb, err)})
+	}
+	check("modify-applied-to-old", mu2.GetModel("T", c10UUID))
+	return fs
+}
+
 // peer applies an arbitrary peer difference d to a and compares with the update2 rules.
 func (e *c10env) peer(cc c10col, a, d oval) []finding {
 	c := cc.col
@@ -549,6 +631,11 @@ func c10Child(r *ev.Run, batch int) {
 					rep(e.pair(cc, a, b, (i+j)%2 == 0), cc, a, b)
 					rep(e.peer(cc, a, b), cc, a, b)
 					rep(e.direct(cc, a, b, sm[(i*7+j*3)%len(sm)]), cc, a, b)
+				if comp := cols[(idx*5+3)%len(cols)]; comp.col.Name != cc.col.Name {
+					cs := comp.small()
+					r.Count("two_column_updates", 1)
+					rep(e.together(cc, a, b, comp, cs[(i*3+j)%len(cs)]), cc, a, b)
+				}
 				}()
 				if r.NeedSample() && len(a.k) > 2 && len(b.k) > 1 {
 					r.Sample(map[string]interface{}{"column": cc.col.Desc(), "a": a.String(), "b": b.String()})
@@ -606,6 +693,10 @@ func c10Child(r *ev.Run, batch int) {
 			rep(e.pair(cc, a, b, false), cc, a, b)
 			rep(e.peer(cc, a, b), cc, a, b)
 			rep(e.direct(cc, a, b, o), cc, a, b)
+			if comp := cols[p.Intn(len(cols))]; comp.col.Name != cc.col.Name && !comp.col.IsScalar() && !comp.col.IsOptional() {
+				r.Count("two_column_updates", 1)
+				rep(e.together(cc, a, b, comp, comp.random(p)), cc, a, b)
+			}
 		}()
 	}
 	if batch == 0 {
